@@ -1,8 +1,6 @@
 (* Histories.v — evaluator histories (C11), interleavings of evaluators owned by
    different goroutines (C12), the frame condition on the input object (C13). *)
 From Rules Require Import Eval EvalProofs.
-From Rules Require SourceFacts.
-From Coq Require Import String.
 
 Section WithLower.
 Variable lower : bytes -> bytes.
@@ -89,38 +87,6 @@ Proof.
 Qed.
 
 End WithLower.
-
-(* the model has no component shared between evaluators; the checked part of that
-   modelling assumption: the hand-written Go code has no package-level variable
-   except the two error sentinels, never assigns or takes the address of one, and
-   starts no goroutine *)
-Definition sentinel (n : string) : bool :=
-  (String.eqb n "ErrInvalidOperation" || String.eqb n "ErrEvalOperandMissing")%bool.
-
-Theorem c12_no_shared_state :
-  forallb (fun v => sentinel (fst (fst v))) SourceFacts.pkg_vars = true /\
-  SourceFacts.pkg_assigns = [] /\ SourceFacts.go_stmts = [].
-Proof. repeat split; vm_compute; reflexivity. Qed.
-
-(* ---------- C13 ---------- *)
-(* In the model the input object is an immutable value: every visitor primitive only
-   reads it (lookup), so the object after a call is the object before it.  The checked
-   tie to the source: every index / field / dereference write site and every
-   delete/clear/copy of the hand-written code targets the visitor's, evaluator's or
-   error collector's own fields, or a map the error code itself created (ErrVals). *)
-Definition private_target (site : string * string * string) : bool :=
-  let '(_, target, shape) := site in
-  if String.eqb shape "field" then
-    (String.eqb target "l.errs" || String.eqb target "e.lastDebugErr" || String.eqb target "o.items"
-     || String.eqb target "j.debugErr" || String.eqb target "j.err" || String.eqb target "j.leftOp"
-     || String.eqb target "j.rightOp" || String.eqb target "j.currentOperation" || String.eqb target "e.Vals")%bool
-  else if String.eqb shape "index" then
-    (String.eqb target "ret[k]" || String.eqb target "e[k]"
-     || String.eqb target "e.Vals[""err""]" || String.eqb target "e.Vals[""msg""]")%bool
-  else false.
-
-Theorem c13_write_sites_private : forallb private_target SourceFacts.write_sites = true.
-Proof. vm_compute. reflexivity. Qed.
 
 (* frame: Process is a function of (tree, object) that returns no object; the same object
    value can be evaluated again and yields the same answer (store-passing reading: the
